@@ -150,6 +150,10 @@ def gen_interval_param(rng, g, lo, hi, cfg, with_end=None):
         for t in ends:
             check_safe(t, g.get('tz'))
         d['end'] = [fmt(t) for t in ends]
+    elif len(starts) > 1:
+        # without 'end' the last interval ends at last start + twice the last distance (wall clock): an end that is no valid local time
+        # is the finding listed under C19 (implicit end in a DST gap) and is generated there only
+        check_safe(starts[-1] + 2 * (starts[-1] - starts[-2]), g.get('tz'))
     return d
 
 
@@ -526,7 +530,12 @@ def gen_structured(rng, g, cfg, name, nodes, prices):
                         bb.pop('end')
             for b in assets:
                 if not b.get('start'):
-                    b['start'] = fmt(rng.choice([pts[0] - step, pts[0], pts[rng.randint(0, T - 1)]]))
+                    s_ = rng.choice([pts[0] - step, pts[0], pts[rng.randint(0, T - 1)]])
+                    try:
+                        check_safe(s_, g.get('tz'))
+                    except Unsafe:
+                        s_ = pts[0] - step
+                    b['start'] = fmt(s_)
                 if not b.get('end'):
                     b['end'] = fmt(rng.choice([pts[T] + step, pts[T]]))
         except Unsafe:
